@@ -237,9 +237,12 @@ def iterNext (b : Bytes) : Next :=
   | [] => .eof                       -- More() = false, Token() = io.EOF
   | c :: r =>
     if c != 93 && c != 125 then       -- dec.More()
-      match scanValue (skipComma b) with
-      | some (raw, rest) => .node raw rest
-      | none => .err
+      match skipWS (skipComma b) with
+      | [] => .eof                   -- Decode at the end of input returns io.EOF: clean end
+      | _ =>
+        match scanValue (skipComma b) with
+        | some (raw, rest) => .node raw rest
+        | none => .err
     else if c == 93 then tailLoop (r.length + 1) r
     else .err
 
